@@ -283,3 +283,20 @@ Example C07_end_to_end_example :
   forall k, (1 <= k)%nat -> exists a, sat a (encode_klae (e2e_err_inst xV xE 0%N 5%N xf [] [] [] 1%Q k)) /\
      (objective a (encode_klae (e2e_err_inst xV xE 0%N 5%N xf [] [] [] 1%Q k)) == 10)%Q.
 Proof. exact (proj2 e2e_err_example). Qed.
+
+(* ---- audit addition (agent-walk, audit/props_C03_C05_C07_C08.md): C07_klae_given_optimal had Examples of a satisfying assignment but none
+   of ALL its hypotheses incl. an OPTIMAL one.  On the given-weights witness (chain 0-1-2-3-4, flows 2 and 0, one given weight 2, integer type):
+   every hypothesis holds and the assignment of C07_given_example (objective 2) is optimal -- the path with weight 2 misses the flow 0 by 2,
+   the empty layer misses the flow 2 by 2; optimality is proved from the computed rows by linear arithmetic ---- *)
+From FP Require Import AuditErr ErrEncGivenMpe.
+Example C07_given_optimal_hypotheses_satisfiable :
+  e_given wit_given = Some [2%Q] /\ wf_graph (eG wit_given) /\ p_allow_empty (e_base wit_given) = true /\ p_cons (e_base wit_given) = [] /\
+  length [2%Q] = eK wit_given /\
+  (forall u v, In (u, v) (g_edges (eG wit_given)) -> (wg_rank u < wg_rank v)%nat) /\ (forall v, (wg_rank v <= 4)%nat) /\
+  (forall e, In e (basic_edges wit_given) -> (0 <= scale_of wit_given e)%Q /\ (e_int wit_given = true -> is_int (flow_of wit_given e))) /\
+  (e_int wit_given = true -> forall q, In q [2%Q] -> is_int q) /\
+  sat (gasg wit_given [2%Q] wit_given_P) (encode_klae wit_given) /\
+  (forall b, sat b (encode_klae wit_given) ->
+     (objective (gasg wit_given [2%Q] wit_given_P) (encode_klae wit_given) <= objective b (encode_klae wit_given))%Q).
+Proof. exact klae_given_optimal_premises. Qed.
+Print Assumptions C07_given_optimal_hypotheses_satisfiable.
